@@ -23,6 +23,10 @@ def run(ctx):
     ctx.rule("R11.c", "the re-validation guard treats every default other than None alike (shared with R01.k) and instantiate is inherited whatever the type relation (shared with R12.l)", floor=1)
     ctx.rule("R11.d", "allow_None is recomputed from the class's own declaration, never inherited: every store `self.allow_None = allow_None` of a constructor argument in a Parameter type is "
                       "reached only when that argument is known not to be Undefined (an Undefined slot would be filled from the nearest ancestor by the merge R11.a describes)", floor=2)
+    ctx.rule("R11.e", "the exemption list is sound: for every Parameter type, no slot named in its _non_validated_slots (whose re-declaration does not trigger re-validation of the merged "
+                      "default) is read by a validator reachable from that type's _validate (e.g. step decides the order check of Range; allow_None decides whether None passes)", floor=20)
+    ctx.rule("R11.f", "constructors leave unspecified slots unspecified: no Parameter type's __init__ replaces a slot argument that was not given (Undefined) by a concrete value before it is "
+                      "stored -- a slot holding a concrete value counts as declared on that class and is never filled from an ancestor (allow_None is the documented exception: recomputed, R11.d)", floor=25)
     ctx.not_decided += ["hierarchies deeper than three levels and multiple-inheritance merges (the model is bounded; the search loop is the same code)",
                         "that the value allow_None is recomputed TO is the right one for each type (only that it is never left Undefined, R11.d)",
                         "that the validators themselves are right (C01)"]
@@ -65,6 +69,82 @@ def run(ctx):
                                                  "when the class is created, so a redeclaration that does not mention allow_None inherits the ancestor's instead of recomputing it" % g.qualname,
                                  key=g.qualname + "::allow-none-may-be-undefined")
     ctx.require(n_sites >= 2, "fewer than 2 stores of the allow_None argument found (%d)" % n_sites)
+
+    # R11.e
+    from checks.c01 import validator_reads
+
+    def class_list(cq, attr, depth=0):
+        """Statically evaluate a class attribute that is a list of string constants, possibly `<Class>.<attr> + [...]`."""
+        for q_ in ctx.hier.mro(cq):
+            cobj = ctx.repo.classes.get(q_)
+            node = cobj.class_assign(attr) if cobj is not None else None
+            if node is not None:
+                def ev(e):
+                    if isinstance(e, (ast.List, ast.Tuple)) and all(isinstance(x, ast.Constant) and isinstance(x.value, str) for x in e.elts):
+                        return [x.value for x in e.elts]
+                    if isinstance(e, ast.BinOp) and isinstance(e.op, ast.Add):
+                        l, r = ev(e.left), ev(e.right)
+                        return None if l is None or r is None else l + r
+                    if isinstance(e, ast.Attribute) and e.attr == attr and isinstance(e.value, ast.Name) and depth < 6:
+                        tgt = next((k for k in ctx.repo.classes if k.rsplit(".", 1)[-1] == e.value.id), None)
+                        return class_list(tgt, attr, depth + 1) if tgt else None
+                    return None
+                return ev(node)
+        return None
+    n_e = 0
+    for cq in sorted(ctx.repo.classes):
+        if not ctx.facts.is_parameter_cls(cq) or ctx.hier.resolve(cq, "_validate") is None:
+            continue
+        lst = class_list(cq, "_non_validated_slots")
+        if lst is None:
+            raise AnalysisError("R11.e: _non_validated_slots of %s is not a list of string constants the checker can evaluate" % cq)
+        reads = validator_reads(ctx, cq)
+        n_e += 1
+        # `_label` is the storage slot behind the label property; `name`/`owner` are read for error messages only
+        bad = [s_ for s_ in lst if s_ in reads and s_ not in ("name", "owner")]
+        vf = ctx.hier.resolve(cq, "_validate")
+        if bad:
+            ctx.fail("R11.e", vf, vf.node, "%s exempts `%s` from re-validation (_non_validated_slots), but its validator reads it (%s): a subclass that re-declares only that slot gets a merged "
+                                           "default its own validator rejects, and class creation does not notice" % (cq.rsplit(".", 1)[-1], bad[0], ", ".join(reads[bad[0]][:2])),
+                     key="%s::exempt-slot-is-validated::%s" % (cq, bad[0]))
+        else:
+            ctx.ok("R11.e", vf, vf.node, "%s: none of the %d exempt slots is read by its validators" % (cq.rsplit(".", 1)[-1], len(lst)))
+    ctx.require(n_e >= 20, "fewer than 20 Parameter types examined for R11.e (%d)" % n_e)
+
+    # R11.f
+    n_f = 0
+    for cq in sorted(ctx.repo.classes):
+        if not ctx.facts.is_parameter_cls(cq):
+            continue
+        cobj = ctx.repo.classes[cq]
+        inits = [g for g in cobj.methods.get("__init__", []) if not g.has_decorator("typing.overload") and not g.has_decorator("overload")]
+        slots = set(ctx.hier.all_slots(cq))
+        for g in inits:
+            n_f += 1
+            cfg = None
+            hit = None
+            for st in ast.walk(g.node):
+                if not isinstance(st, ast.Assign):
+                    continue
+                for t in st.targets:
+                    arg = t.id if isinstance(t, ast.Name) else (t.attr if isinstance(t, ast.Attribute) and isinstance(t.value, ast.Name) and t.value.id == g.params[0] else None)
+                    if arg is None or arg not in g.params or arg not in slots or arg == "allow_None":
+                        continue
+                    if isinstance(st.value, ast.Name) and st.value.id in ("Undefined", arg):
+                        continue
+                    cfg = cfg or ctx.facts.cfg(g)
+                    for nd in cfg.nodes_of(st):
+                        if cond_holds(cfg.conditions(nd), "%s is Undefined" % arg, True):
+                            hit = hit or (st, arg)
+            if hit is None:
+                ctx.ok("R11.f", g, g.node, "unspecified slot arguments stay Undefined")
+            else:
+                st, arg = hit
+                ctx.fail("R11.f", g, st, "%s gives the slot `%s` a concrete value when the declaration does not specify it (`%s`): the slot then counts as declared on that class, so a "
+                                         "re-declaration that omits `%s` does not inherit the ancestor's value (and the merged default is validated against the wrong one)" % (
+                                             g.qualname, arg, norm(st)[:70], arg), key="%s::materialises-unspecified::%s" % (g.qualname, arg),
+                         input="class A: p = %s(%s=<value>); class B(A): p = %s()  ->  B.param.p.%s is the type's own default, not A's" % (cq.rsplit(".", 1)[-1], arg, cq.rsplit(".", 1)[-1], arg))
+    ctx.require(n_f >= 25, "fewer than 25 Parameter constructors examined for R11.f (%d)" % n_f)
 
     # R11.c
     from checks.shared import inherited_default_revalidated
